@@ -119,7 +119,6 @@ PROPS["C18"] = {
     "rule": "graphs out of bind-heavy histories (after collections, never-added slots, re-added ids, both Hex representations, empty data, labels of all three variants), exported three times per history, plus a twin graph with the same content built differently (larger capacity, reverse add/bind order, data never read) whose texts must be identical; non-trivial = a history with at least one collection",
     "nontrivial": "collections",
     "modelled": RENDER_MODELLED,
-    "partial": ["same_content_same_text is stated for graphs of equal capacity (the twin comparison with a different capacity is decided by the run)"],
 }
 PROPS["C20"] = {
     "quick": [("render", 200, 80)],
